@@ -16,7 +16,7 @@ REQUIRED = ["value==exhaustive min-sum", "value==assignment oracle", "sandwich b
             "inf-death rows ignored with warning", "list/int forms agree"]
 RULE = ("pairs of diagrams as in C01 (sizes 0..11 exhaustive, up to 60+60 quick / 300+300 thorough with an independent "
         "assignment oracle), plus 'mixed' inputs whose optimum must use both cross and diagonal pairings and inputs where "
-        "/2 versus /sqrt(2) changes the optimal matching; non-trivial = the optimal matching found by the exhaustive "
+        "/2 versus /sqrt(2) changes the optimal matching, plus one case in 397 with 515-760 points per diagram (M*N > 2**18); non-trivial = the optimal matching found by the exhaustive "
         "oracle has >=1 cross pair and >=1 diagonal pair (small cases) or optimum strictly below the all-diagonal cost "
         "with M != N (larger cases); distinct = digest of the input pair")
 ASSUMPTIONS = ["cost rule from the statement: Euclidean between points, (d-b)/sqrt(2) to the diagonal",
@@ -24,6 +24,7 @@ ASSUMPTIONS = ["cost rule from the statement: Euclidean between points, (d-b)/sq
                "expands |x|^2+|y|^2-2xy and is only sqrt(eps)-accurate; a wrong cost rule or matching differs by far more",
                "large sizes: Hungarian method on a table with a different layout (any diagonal slot absorbs any point); "
                "solver family shared with the implementation, which is why the exhaustive oracle covers M+N<=11"]
+REQUIRED_NOTES = ["large-cases"]
 TECHNIQUE = "runtime monitoring: postcondition monitor on persim.wasserstein with exhaustive and independent-layout assignment oracles"
 
 
@@ -55,7 +56,18 @@ def gen_mixed(rng):
 
 
 def run_case(ctx, k, rng):
-    if rng.random() < 0.2:
+    if k % 397 == 5:
+        # large diagrams (M*N beyond 2**18, a few hundred points each): size-gated code paths must be as exact as the small ones
+        scale = gen.pick_scale(rng)
+        m, n = int(rng.integers(515, 760)), int(rng.integers(515, 760))
+        A = gen.diagram(rng, m, str(rng.choice(["float", "cluster", "diagheavy", "dyadic"])), scale)
+        B = gen.diagram(rng, n, str(rng.choice(["float", "cluster", "diagheavy", "dyadic"])), scale)
+        if rng.random() < 0.4:      # noisy copy of A plus extra low-persistence points
+            B = np.vstack([A + rng.normal(0, 0.05 * scale, A.shape), gen.diagram(rng, int(rng.integers(1, 60)), "diagheavy", scale)])
+            B[:, 1] = np.maximum(B[:, 1], B[:, 0])
+        small = False; cls = "large"
+        ctx.note("large-cases")
+    elif rng.random() < 0.2:
         A, B, scale = gen_mixed(rng); small = len(A) + len(B) <= 11; cls = "mixed"
     else:
         A, B, scale, small = gen_pair(rng, "quick" if ctx.tier == "quick" else "thorough")
